@@ -73,7 +73,15 @@ func ClearTextPassword(validate func(ctx context.Context, database, username, pa
 		}
 
 		if !valid {
-			return ctx, ErrorCode(writer, pgerror.WithCode(errors.New("invalid username/password"), codes.InvalidPassword))
+			// NOTE: the error has to be returned after it has been written to
+			// the client, the connection is not authenticated and has to be closed.
+			invalid := pgerror.WithCode(errors.New("invalid username/password"), codes.InvalidPassword)
+			err = ErrorCode(writer, invalid)
+			if err != nil {
+				return ctx, err
+			}
+
+			return ctx, invalid
 		}
 
 		return ctx, writeAuthType(writer, authOK)
